@@ -4063,8 +4063,9 @@ Qed.
 Lemma cinv_init n calls : CInv (cinit n calls).
 Proof.
   unfold cinit, CInv. simpl. split.
-  - induction n; simpl; auto.
-  - apply Forall_forall. intros x Hx. apply repeat_spec in Hx. subst. simpl. auto.
+  - assert (Z : holders (repeat (mkCT CIdle CIdle false false calls) n) = 0) by (induction n; simpl; auto).
+    rewrite Z. reflexivity.
+  - apply Forall_forall. intros x Hx. apply repeat_spec in Hx. subst. unfold cwf. simpl. auto.
 Qed.
 
 Theorem cinv_run n calls cs : CInv (crun true (cinit n calls) cs).
